@@ -162,7 +162,7 @@ def run(ctx):
             if cls is None:
                 n_not += 1
                 continue
-            if cls[0] == "lit" and cls[1] == 0:
+            if cls[0] == "lit" and (cls[1] == 0 or meth == "resize"):
                 continue
             n_judged += 1
             key = (f.name, _norm(show(call)))
